@@ -163,6 +163,9 @@ def build_controlled():
     return True, ""
 
 
+ALL_GEN_TARGETS = ("pmath", "routing", "access")
+
+
 def lean_stage(prop, gen_targets, extra_modules=()):
     """returns dict(ok, obligations, discharged, failed, axioms, log, gen_errors)"""
     res = dict(ok=False, obligations=[], discharged=[], failed=[], axioms={}, log="", gen_errors=[])
@@ -173,6 +176,11 @@ def lean_stage(prop, gen_targets, extra_modules=()):
             rc, so, se = run([os.path.join(BIN, "nvextract"), t, REPO, gen], timeout=120)
             if rc != 0:
                 res["gen_errors"].append("%s: %s" % (t, (so + se).strip()))
+        # keep the other generated files in step with the tree as well (a previous run may have generated them
+        # from a different tree); failures there do not concern this property
+        for t in ALL_GEN_TARGETS:
+            if t not in gen_targets:
+                run([os.path.join(BIN, "nvextract"), t, REPO, gen], timeout=120)
         mods = ["NettyVerif.Props.%s" % prop] + list(extra_modules)
         t0 = time.time()
         rc, so, se = run(["lake", "build"] + mods + ["nvdriver"], cwd=LEAN, timeout=1800)
